@@ -17,9 +17,10 @@ RULE = ("integer images of 2-3 D with 1..64 grey levels x 4/13 directions x dist
         "layouts and dtypes. Non-trivial: image not constant")
 NOT_PROVED = ["Haralick formulas and Zernike moments are floating-point pipelines: compared with independent evaluations of the "
               "textbook definitions / checked as invariances on the implementation, not proved",
-              "180-degree / transposition invariance of the symmetric co-occurrence matrices is checked exactly per case, not proved",
-              "LBP mapping: least-of-the-P-rolls is proved for every P (lbp_map_is_least_rotation); that rolling is a cyclic bit rotation "
-              "(so rotated codes share the bin) is a finite sweep, P <= 12"]
+              "co-occurrence: counting, 180-degree and transposition symmetries are theorems about the counts (cooc_spec_rot180, "
+              "cooc_spec_transpose); that haralick is a function of the normalised symmetric matrix only is checked per case",
+              "LBP mapping: period, rotation invariance and canonical bin are theorems for every P (LbpProof.v); the histogram sum is "
+              "checked on the implementation"]
 BUDGET_S = {"quick": 100, "thorough": 900}
 
 
